@@ -88,32 +88,71 @@ func SpliceAndCheck(dir, setupFile, funcs string, imp types.Importer) string {
 	if pkgName == "" {
 		pkgName = sf.Name.Name
 	}
-	var gen strings.Builder
-	gen.WriteString("package " + pkgName + "\n")
-	for _, is := range sf.Imports {
-		gen.WriteString("import ")
-		if is.Name != nil {
-			gen.WriteString(is.Name.Name + " ")
+	// extra: imports that goimports would ADD (the last stage resolves an unknown package
+	// qualifier to a package of that name; here: one in the transitive import closure)
+	check := func(extra []string) (errs []string, undefined []string, pkg *types.Package) {
+		var gen strings.Builder
+		gen.WriteString("package " + pkgName + "\n")
+		for _, is := range sf.Imports {
+			gen.WriteString("import ")
+			if is.Name != nil {
+				gen.WriteString(is.Name.Name + " ")
+			}
+			gen.WriteString(is.Path.Value + "\n")
 		}
-		gen.WriteString(is.Path.Value + "\n")
+		for _, p := range extra {
+			gen.WriteString("import \"" + p + "\"\n")
+		}
+		gen.WriteString(funcs)
+		gf, err := parser.ParseFile(fset, filepath.Join(dir, "zz_generated.gen.go"), gen.String(), 0)
+		if err != nil {
+			return []string{"generated code does not parse: " + err.Error()}, nil, nil
+		}
+		conf := types.Config{Importer: imp, Error: func(err error) {
+			msg := err.Error()
+			if strings.Contains(msg, "imported and not used") {
+				return
+			}
+			if i := strings.Index(msg, "undefined: "); i >= 0 {
+				undefined = append(undefined, strings.TrimSpace(msg[i+len("undefined: "):]))
+			}
+			if len(errs) < 3 {
+				errs = append(errs, msg)
+			}
+		}}
+		pkg, _ = conf.Check(pkgName, fset, append(append([]*ast.File(nil), files...), gf), nil)
+		return errs, undefined, pkg
 	}
-	gen.WriteString(funcs)
-	gf, err := parser.ParseFile(fset, filepath.Join(dir, "zz_generated.gen.go"), gen.String(), 0)
-	if err != nil {
-		return "generated code does not parse: " + err.Error()
+	errs, undefined, pkg := check(nil)
+	if len(undefined) > 0 && pkg != nil {
+		byName := map[string][]string{}
+		seen := map[*types.Package]bool{}
+		var walk func(p *types.Package)
+		walk = func(p *types.Package) {
+			if seen[p] {
+				return
+			}
+			seen[p] = true
+			byName[p.Name()] = append(byName[p.Name()], p.Path())
+			for _, q := range p.Imports() {
+				walk(q)
+			}
+		}
+		for _, q := range pkg.Imports() {
+			walk(q)
+		}
+		var extra []string
+		added := map[string]bool{}
+		for _, u := range undefined {
+			if ps := byName[u]; len(ps) == 1 && !added[ps[0]] {
+				added[ps[0]] = true
+				extra = append(extra, ps[0])
+			}
+		}
+		if len(extra) > 0 {
+			errs, _, _ = check(extra)
+		}
 	}
-	files = append(files, gf)
-	var errs []string
-	conf := types.Config{Importer: imp, Error: func(err error) {
-		msg := err.Error()
-		if strings.Contains(msg, "imported and not used") {
-			return
-		}
-		if len(errs) < 3 {
-			errs = append(errs, msg)
-		}
-	}}
-	conf.Check(pkgName, fset, files, nil)
 	return strings.Join(errs, "; ")
 }
 
